@@ -47,6 +47,12 @@ lazy_static::lazy_static! {
     static ref DNS_TIMEOUT: RwLock<Duration> = RwLock::new(Duration::from_millis(800));
 }
 
+/// Verification hook: put the adaptive timeout back to its initial value between executions.
+#[cfg(feature = "verif")]
+pub async fn verif_reset_timeout() {
+    *DNS_TIMEOUT.write().await = Duration::from_millis(800);
+}
+
 /* Since the DNS timeout is dynamic, we want to make sure it doesn't somehow get crazily out of
  * bounds due to some weird effects.
  */
@@ -531,6 +537,8 @@ impl OutQuery {
                     // fast random number generator.
                     use rand::prelude::*;
                     let jitter = rand::rng().random_range(std::time::Duration::from_secs(0)..timeout);
+                    #[cfg(feature = "verif")]
+                    let jitter = super::verif::jitter(jitter, timeout);
                     // This should increase by x1.5 to x2.5
                     timeout += (timeout / 2) + jitter;
                 },
@@ -545,6 +553,8 @@ impl OutQuery {
     ) -> Result<dnspkt::DNSPkt, Error> {
         use rand::TryRng as _;
         let id = rand::rngs::SysRng.try_next_u32().unwrap() as u16;
+        #[cfg(feature = "verif")]
+        let id = super::verif::qid(id);
         let oq = create_outquery(id, &msg.in_query);
 
         let out_reply;
